@@ -965,6 +965,7 @@ func Gen(w *bufio.Writer, seed uint64, tier string) {
 	}
 	// (d) allocation layer on synthetic tables (writer.go)
 	genWriter(w, hx.NewRng(seed^0xa110c), tier)
+	genAtab(w, hx.NewRng(seed^0xa7ab), tier)
 	// (c) digest: tar vs direct on every generated shape once more, unmodified
 	for _, shift := range []int{9, 12} {
 		for _, v := range []string{"plain", "nested", "nested+presigned", "gaps+presigned", "nested+nomini", "emptystorage"} {
@@ -1168,6 +1169,8 @@ func Impl() {
 			return implAlloc(tmp, f)
 		case "free":
 			return implFree(f)
+		case "atab":
+			return implAtab(f)
 		case "adds":
 			seq++
 			return implAdds(tmp, seq, f)
